@@ -22,7 +22,7 @@ func init() { fw.Register(c16{}) }
 func (c16) ID() string { return "C16" }
 func (c16) Rule() string {
 	return "every byte string of length <=4 (thorough: <=5) over a 32-symbol alphabet (0 1 9 a e E x b f _ . + - \" ` \\ / * = < ! & | : space newline NUL 0xC3 ( ) CR) in file and line mode, " +
-		"random strings of length 5..60 over all bytes, the shipped .gr corpus and byte mutations of it; for each input the monitor calls NextToken until the end marker, " +
+		"every literal kind (both strings, both comments, identifier, integer, float) at 26 lengths from 1 to 70001 bytes lexed three times, random strings of length 5..60 over all bytes, the shipped .gr corpus and byte mutations of it; for each input the monitor calls NextToken until the end marker, " +
 		"recomputes every token's span from Lexer.Pos() and checks tiling, literal=bytes, string/comment spans against its own scanner, stickiness of the end marker, token count <= n+1, " +
 		"interning and keyword classification. non-trivial = input with >=1 non-end token; distinct = distinct (input, mode)."
 }
